@@ -25,8 +25,15 @@ package bucketteer
 //      * end of file reported together with the data: a read that ends exactly at the end of the file
 //        returns (len(p), io.EOF), which io.ReaderAt explicitly allows.
 //      Short reads without an error are NOT generated: the contract forbids them.
+//      * concurrent lookups ("clients of ReadAt can execute parallel ReadAt calls on the same input source"): many
+//        goroutines ask ONE Reader for all added signatures and the absent probes at the same time, several rounds,
+//        with the reading process under GOMAXPROCS 1, 16, 3 and the default; the ReaderAt, after it has filled the
+//        caller's buffer and before it returns, yields (runtime.Gosched), blocks on a channel handshake with a
+//        helper goroutine, does both in turn, or returns at once (one behaviour per round). Every answer must be
+//        the sequential one. This runs on a Reader that never met a read error and, after every fault injection
+//        above (failed call retried), on the Reader that met the fault.
 //
-// Nothing here depends on timing; every random choice derives from the seed.
+// Nothing here depends on timing (only the answers are judged); every random choice derives from the seed.
 
 import (
 	"context"
@@ -43,6 +50,7 @@ import (
 	"strconv"
 	"strings"
 	"sync"
+	"sync/atomic"
 	"testing"
 	"time"
 
@@ -368,9 +376,72 @@ type vc05rRA struct {
 	fired    bool
 	firedNow bool // set when the fault fires; the driver clears it before each operation
 	eofHits  int
+
+	// What ReadAt does AFTER the caller's buffer is filled and BEFORE it returns (outside the lock), as a reader
+	// over a network, a rate limiter or a tracer would: nothing, runtime.Gosched(), or a blocking handshake with a
+	// helper goroutine (the calling goroutine is parked and woken again). Set with setAfter; read atomically.
+	after int32
+	tick  uint32
+	pump  chan chan struct{}
+}
+
+const (
+	vc05rAfterNothing = iota
+	vc05rAfterYield
+	vc05rAfterBlock
+	vc05rAfterMixed // per call: yield, block, nothing in turn
+)
+
+var vc05rAfterNames = []string{"returns at once", "runtime.Gosched() before returning", "blocks on a channel handshake before returning", "yields / blocks / returns at once in turn"}
+
+// setAfter is called by the driver while no lookup is running.
+func (r *vc05rRA) setAfter(mode int32) {
+	if mode != vc05rAfterNothing && r.pump == nil {
+		r.pump = make(chan chan struct{})
+		go func(pump chan chan struct{}) {
+			for reply := range pump {
+				runtime.Gosched()
+				close(reply)
+			}
+		}(r.pump)
+	}
+	atomic.StoreInt32(&r.after, mode)
+}
+
+// stopPump: called by the driver when all lookups have returned.
+func (r *vc05rRA) stopPump() {
+	atomic.StoreInt32(&r.after, vc05rAfterNothing)
+	if r.pump != nil {
+		close(r.pump)
+		r.pump = nil
+	}
+}
+
+func (r *vc05rRA) block() {
+	reply := make(chan struct{})
+	r.pump <- reply
+	<-reply
 }
 
 func (r *vc05rRA) ReadAt(p []byte, off int64) (int, error) {
+	n, err := r.readAt(p, off)
+	mode := atomic.LoadInt32(&r.after)
+	if mode == vc05rAfterMixed {
+		mode = int32(atomic.AddUint32(&r.tick, 1)%3) + 1
+		if mode == vc05rAfterMixed {
+			mode = vc05rAfterNothing
+		}
+	}
+	switch mode {
+	case vc05rAfterYield:
+		runtime.Gosched()
+	case vc05rAfterBlock:
+		r.block()
+	}
+	return n, err
+}
+
+func (r *vc05rRA) readAt(p []byte, off int64) (int, error) {
 	r.mu.Lock()
 	defer r.mu.Unlock()
 	r.calls++
@@ -529,6 +600,26 @@ func vc05rWrappers(rng *vh.Rng, spec *vc05Spec, data []byte) *vc05rFaultRes {
 		fr.Counts["eof-wrapper:files"]++
 	}
 
+	// --- concurrent lookups on a Reader that never met a read error
+	full := make([]vc05rExpect, 0, len(present)+len(absent))
+	for _, s := range present {
+		full = append(full, vc05rExpect{s, true})
+	}
+	for _, s := range absent {
+		full = append(full, vc05rExpect{s, false})
+	}
+	for _, gmp := range []int{1, 16} {
+		vc05rWithProcs(gmp, func() {
+			ra := &vc05rRA{data: data}
+			r, err, pn := vc05rNewReader(ra)
+			if err != nil || pn != "" {
+				fr.fail("open-error", fmt.Sprintf("NewReader over a plain ReaderAt (no fault) failed on the sealed file: err=%v panic=%q", err, pn), where)
+				return
+			}
+			vc05rConcurrent(fr, ra, r, full, 16, 4, 0, "never met a read error", in)
+		})
+	}
+
 	// --- transient faults
 	byPrefix := map[uint16][][64]byte{}
 	var prefixes []int
@@ -586,20 +677,51 @@ func vc05rWrappers(rng *vh.Rng, spec *vc05Spec, data []byte) *vc05rFaultRes {
 	seqs = append(seqs, [][64]byte{targets[0], targets[1], targets[0]}, [][64]byte{targets[1], targets[2], targets[1]},
 		[][64]byte{targets[2], targets[3], targets[0]})
 
+	// After the fault (and the retry of the failed call) many lookups run at the same time on the Reader that met it.
+	// Light load (most injections): the first two signatures of every prefix, random present ones, some absent ones;
+	// full load (the injections of the first sequence, fault mode 0): every present signature and every absent probe.
+	var light []vc05rExpect
+	for _, p := range prefixes {
+		b := byPrefix[uint16(p)]
+		for i := 0; i < 2 && i < len(b) && len(light) < 40; i++ {
+			light = append(light, vc05rExpect{b[i], true})
+		}
+	}
+	for len(light) < 48 && len(light) < len(present) {
+		light = append(light, vc05rExpect{present[rng.Intn(len(present))], true})
+	}
+	for i := 0; i < 16 && i < len(absent); i++ {
+		light = append(light, vc05rExpect{absent[i], false})
+	}
+	procs := []int{1, 16, 3, 0} // GOMAXPROCS of the reading process, set BEFORE the Reader is created; 0: the default
+	idx := 0
 	for si, seq := range seqs {
 		T := traceLen(seq)
 		for mode := 0; mode < 2; mode++ {
 			for k := 1; k <= T; k++ {
 				tag := fmt.Sprintf("fault: ReadAt call #%d of %d (NewReader + %d lookups, sequence %d) fails once, mode %d", k, T, len(seq), si, mode)
-				vc05rOneFault(fr, data, seq, k, mode, present, absent, in, where, tag)
+				conc := vc05rConc{list: light, workers: 8, rounds: 2, shift: idx}
+				if si == 0 && mode == 0 {
+					conc = vc05rConc{list: full, workers: 12, rounds: 3, shift: idx}
+				}
+				vc05rWithProcs(procs[idx%len(procs)], func() {
+					vc05rOneFault(fr, data, seq, k, mode, present, absent, in, where, tag, conc)
+				})
+				idx++
 			}
 		}
 	}
 	return fr
 }
 
+// vc05rConc: the concurrent phase of one fault injection.
+type vc05rConc struct {
+	list                   []vc05rExpect
+	workers, rounds, shift int
+}
+
 func vc05rOneFault(fr *vc05rFaultRes, data []byte, seq [][64]byte, k, mode int, present, absent [][64]byte,
-	in func([64]byte, string) string, where, tag string) {
+	in func([64]byte, string) string, where, tag string, conc vc05rConc) {
 	fr.Counts["fault-injections"]++
 	fr.Counts["fault-mode:"+[]string{"nothing-delivered,transient-error", "half-delivered,unexpected-EOF"}[mode]]++
 	ra := &vc05rRA{data: data, failAt: k, mode: mode}
@@ -664,6 +786,10 @@ func vc05rOneFault(fr *vc05rFaultRes, data []byte, seq [][64]byte, k, mode int, 
 		fr.Counts["fault-not-reached"]++
 		return
 	}
+	// lookups that overlap in time on this Reader answer like sequential ones
+	vc05rConcurrent(fr, ra, r, conc.list, conc.workers, conc.rounds, conc.shift, "met one transient read error before (the failed call was retried)", func(s [64]byte, more string) string {
+		return in(s, tag+"; afterwards: "+more)
+	})
 	// the reader must be as good as new: every added signature present, absent probes absent
 	bad := 0
 	for _, s := range present {
@@ -688,6 +814,107 @@ func vc05rOneFault(fr *vc05rFaultRes, data []byte, seq [][64]byte, k, mode int, 
 			fr.fail("transient-read-error-false-positive", "after one transient read error the Reader reports a signature present that a fresh Reader reports absent", in(s, tag))
 		}
 	}
+}
+
+// ---------- concurrent lookups ----------
+
+type vc05rExpect struct {
+	sig     [64]byte
+	present bool // the answer of a sequential lookup on a fresh Reader (no fault)
+}
+
+// vc05rConcurrent: `workers` goroutines ask the same Reader for every signature of `list` at the same time (half of
+// them in list order, the others starting somewhere else), `rounds` times; in every round the ReaderAt behaves
+// differently after it has filled the caller's buffer (see vc05rRA.after). No read fails during this phase. Every
+// answer must be the sequential one. Nothing here looks at time: only the answers count.
+func vc05rConcurrent(fr *vc05rFaultRes, ra *vc05rRA, r *Reader, list []vc05rExpect, workers, rounds, shift int, history string,
+	in func([64]byte, string) string) {
+	if len(list) == 0 || r == nil {
+		return
+	}
+	type mis struct {
+		sig, detail, input string
+	}
+	type wres struct {
+		checks int
+		counts map[string]int
+		mis    []mis
+	}
+	defer ra.stopPump()
+	for round := 0; round < rounds; round++ {
+		mode := []int32{vc05rAfterYield, vc05rAfterBlock, vc05rAfterMixed, vc05rAfterNothing}[(round+shift)%4]
+		ra.setAfter(mode)
+		fr.Counts["concurrent-rounds:ReadAt "+vc05rAfterNames[mode]]++
+		fr.Counts[fmt.Sprintf("concurrent-rounds:GOMAXPROCS=%d", runtime.GOMAXPROCS(0))]++
+		fr.Counts["concurrent-rounds:"+history]++
+		how := fmt.Sprintf("%d goroutines look up %d signatures each on ONE Reader at the same time, GOMAXPROCS=%d, round %d; the ReaderAt %s; the Reader %s",
+			workers, len(list), runtime.GOMAXPROCS(0), round+1, vc05rAfterNames[mode], history)
+		results := make([]wres, workers)
+		start := make(chan struct{})
+		var wg sync.WaitGroup
+		for g := 0; g < workers; g++ {
+			wg.Add(1)
+			go func(g int) {
+				defer wg.Done()
+				w := &results[g]
+				w.counts = map[string]int{}
+				note := func(sig, detail string, s [64]byte) {
+					w.counts[sig]++
+					if len(w.mis) < 2 {
+						w.mis = append(w.mis, mis{sig, detail, in(s, how+fmt.Sprintf("; goroutine %d", g))})
+					}
+				}
+				off := 0
+				if g%2 == 1 {
+					off = (g * len(list) / workers) % len(list)
+				}
+				<-start
+				for i := range list {
+					e := list[(i+off)%len(list)]
+					w.checks++
+					has, err, pn := vc05rHas(r, e.sig)
+					switch {
+					case pn != "":
+						note("panic", "Reader.Has panicked during concurrent lookups: "+pn, e.sig)
+					case err != nil:
+						note("concurrent-lookups-error", "Reader.Has returned an error during concurrent lookups although no read failed (a sequential lookup answers without error): "+err.Error(), e.sig)
+					case e.present && !has:
+						note("concurrent-lookups-false-negative", "added signature answered (false, nil) by a lookup that ran at the same time as other lookups on the same Reader; the sequential lookup reports it present", e.sig)
+					case !e.present && has:
+						note("concurrent-lookups-false-positive", "a signature that the sequential lookup reports absent is reported present by a lookup that ran at the same time as other lookups on the same Reader", e.sig)
+					}
+				}
+			}(g)
+		}
+		close(start)
+		wg.Wait()
+		for g := range results {
+			fr.Checks += results[g].checks
+			fr.Counts["concurrent-lookups"] += results[g].checks
+			for _, m := range results[g].mis {
+				fr.fail(m.sig, m.detail, m.input)
+			}
+			for sig, n := range results[g].counts {
+				// fr.fail counted the ones it was handed; add the rest
+				k := 0
+				for _, m := range results[g].mis {
+					if m.sig == sig {
+						k++
+					}
+				}
+				fr.Counts["failure-observations:"+sig] += n - k
+			}
+		}
+	}
+}
+
+// vc05rWithProcs runs f under runtime.GOMAXPROCS(n) (n = 0: unchanged) and restores the previous value.
+func vc05rWithProcs(n int, f func()) {
+	if n > 0 {
+		prev := runtime.GOMAXPROCS(n)
+		defer runtime.GOMAXPROCS(prev)
+	}
+	f()
 }
 
 // ---------- child process ----------
@@ -782,7 +1009,7 @@ func TestVerif_C05_Robust(t *testing.T) {
 	if err := os.MkdirAll(dir, 0o755); err != nil {
 		t.Fatalf("setup failed: %v", err)
 	}
-	rep := vh.NewReport("C05", part, fmt.Sprintf("format Version %d, configuration and ReaderAt robustness: (a) the writer runs in child processes under GOMAXPROCS = %v on multisets over the first, the last (ffff, feff, ...), the byte-swapped and the n-way-seam prefixes with 2..9 signatures each plus duplicates, put in per-bucket orders that are not an eytzinger layout: every added signature must be reported present by Writer.Has and by the sealed file (mmap, *os.File, bytes.Reader), Writer.Has = Reader.Has on every probe; (b) opaque io.ReaderAt wrappers: each ReadAt of the trace of NewReader + lookups of present signatures fails once (nothing / half delivered, buffer scribbled): the call that met the fault may fail but never answers (false, nil), the retry and every added signature asked afterwards on the same Reader must be present; a ReaderAt that returns (len(p), io.EOF) at the end of the file must be served", ver, vc05rSweepValues(thorough)))
+	rep := vh.NewReport("C05", part, fmt.Sprintf("format Version %d, configuration and ReaderAt robustness: (a) the writer runs in child processes under GOMAXPROCS = %v on multisets over the first, the last (ffff, feff, ...), the byte-swapped and the n-way-seam prefixes with 2..9 signatures each plus duplicates, put in per-bucket orders that are not an eytzinger layout: every added signature must be reported present by Writer.Has and by the sealed file (mmap, *os.File, bytes.Reader), Writer.Has = Reader.Has on every probe; (b) opaque io.ReaderAt wrappers: each ReadAt of the trace of NewReader + lookups of present signatures fails once (nothing / half delivered, buffer scribbled): the call that met the fault may fail but never answers (false, nil), the retry and every added signature asked afterwards on the same Reader must be present; a ReaderAt that returns (len(p), io.EOF) at the end of the file must be served; concurrent lookups: 8..16 goroutines ask one Reader for the added signatures and the absent probes at the same time (reading process under GOMAXPROCS 1, 16, 3, default; the ReaderAt yields, blocks on a channel handshake, or returns at once after filling the buffer), on a Reader that never met a read error and after every fault injection on the Reader that met it: every answer must equal the sequential answer", ver, vc05rSweepValues(thorough)))
 	runs := vc05rRuns(rng, ver, thorough)
 	results := make([]*vc05rResult, len(runs))
 	outputs := make([]string, len(runs))
